@@ -290,6 +290,25 @@ def main(argv=None):
 
 
 def run_harness(harness, pid, mode, seed, timeout):
+    """one or several native harnesses; reports are merged (first failing input wins)"""
+    if isinstance(harness, (list, tuple)):
+        merged = {"runs": 0, "failing_input": None, "bounded": [], "known_findings_reproduced": []}
+        for h in harness:
+            r = _run_harness(h, pid, mode, seed, timeout)
+            if r is None:
+                return None
+            merged["runs"] += r.get("runs", 0)
+            merged["bounded"] += r.get("bounded", [])
+            merged["known_findings_reproduced"] += r.get("known_findings_reproduced", [])
+            if merged["failing_input"] is None and r.get("failing_input") is not None:
+                merged["failing_input"] = dict(r["failing_input"], harness=h)
+                if mode == "find":
+                    break
+        return merged
+    return _run_harness(harness, pid, mode, seed, timeout)
+
+
+def _run_harness(harness, pid, mode, seed, timeout):
     """native harness under /venv/bin/python against the tree under verification; returns its JSON report"""
     repo = os.environ.get("PYVC_REPO", "/repo")
     env = dict(os.environ, PYTHONPATH=repo + os.pathsep + VERIF, VERIF_SEED=str(seed), VERIF_PROP=pid)
